@@ -18,6 +18,19 @@ PROPS = {
         trusted_base=TB_COMMON + ["harness/h_c01.cpp + docmat.hpp: long-double oracle of the documented matrices (accuracy clause and failing-input search)"],
         assumptions=["floating-point rounding is not modelled by the R-model; the 1e-12/1e-5 clause is checked by the long-double harness on stratified inputs, not proved"],
     ),
+    "C02": dict(
+        tracer_units=GROUP_UNITS + ["Trig"],
+        coq_targets=["Props/Properties_C02.vo", "Props/Properties_C02t.vo"],
+        coq_targets_thorough=["Props/Properties_C02x.vo"],
+        props_files=["Props/Properties_C02.v", "Props/Properties_C02t.v"],
+        props_files_thorough=["Props/Properties_C02x.v"],
+        cone=["Proofs/C02_*.v", "Props/Properties_C02*.v", "Doc/Exp.v", "Base/Kernels.v", "Base/Trig.v"],
+        harnesses=[dict(name="h_c02")],
+        trusted_base=TB_COMMON + ["Doc/Exp.v: hand-written closed-form flows t |-> Phi_a(t) (Rodrigues etc.), proved in Coq to solve Phi' = Phi hat(a), Phi(0)=I; `is_mexp` = value at 1 of such a curve (uniqueness of the ODE solution is classical and not formalised)",
+                                  "harness/h_c02.cpp + docmat.hpp: long-double scaling-and-squaring Taylor oracle for expm(hat a)"],
+        assumptions=["rounding is not modelled: the 1e-9/1e-3 accuracy clause and the log round trips are decided by the oracle harness on stratified inputs",
+                     "log (range and round trips) is covered by the harness only; truncation theorems are at kernel level (trig.hpp) and at function level for SO3/SE2 exp"],
+    ),
     "C03": dict(
         tracer_units=GROUP_UNITS,
         coq_targets=["Props/Properties_C03.vo"],
@@ -30,6 +43,12 @@ PROPS = {
 }
 
 MANIFEST_TEXT = {
+    "C02": dict(
+        technique="Coq proof over the regenerated model: traced exp (closed-form path) = hand-written flow Phi_a(1), flows proved to solve the matrix ODE with Coquelicot; kernel truncation bounds from stdlib alternating-series enclosures; translator validation; long-double expm oracle harness",
+        text="For SO2, SO3, SE2, SE3, C1, Galilei, SE_K_3<1..3>: machine-checked that on every closed-form path of the traced exp (rotation norm^2 > eps2, both sign-canonicalisation outcomes) the documented matrix of the result equals the textbook closed-form flow at t=1 and satisfies the representation constraint; that each flow solves Phi'=Phi hat(a), Phi(0)=I for all t (so exp(a) is the matrix exponential, `is_mexp`); that rotation-free tangents are exact on the series path; and that on 0<x^2<=eps2 the series and closed-form paths of every detail/trig.hpp kernel (and of SO3/SE2 exp at coefficient level) differ by <=1e-24-scale bounds. A changed coefficient, Taylor order, threshold or block breaks an obligation. log range/round trips and the floating-point accuracy clause by oracle harness (stratified incl. both sides of the switch, near pi, norms to 50).",
+        note="Trusted: Coq kernel + Coquelicot; translator (validated each run); hand-written flows; uniqueness of ODE solutions not formalised; rounding not modelled. Known findings C02-K1 (Galilei exp just above the switch).",
+        design_ref="DESIGN.md section 5 C02",
+    ),
     "C03": dict(
         technique="Coq proof over the regenerated model (ring/field identities against documented hat/matrix forms) + translator validation + long-double oracle harness",
         text="Machine-checked theorems for SO2, SO3, SE2, SE3, C1, Galilei, SE_K_3<1..3>, for all elements/tangents: traced hat = documented algebra matrix, vee(hat a)=a and hat(vee A)=A on the algebra, linearity, hat(Ad_g a) mat(g) = mat(g) hat(a) (the conjugation definition; mat(g) invertible by C01), hat(ad_a b) = [hat a, hat b], lie_bracket = ad a * b (incl. the commutative short-cuts of the base class), antisymmetry, Jacobi, Ad(g1 g2)=Ad(g1)Ad(g2). Regenerated model: any changed entry/sign/block of Ad/ad/hat/vee breaks a ring obligation. Ad(exp a)=expm(ad a) by oracle harness.",
